@@ -202,7 +202,7 @@ Definition def_addrs (s : st) (d : nat) : list N :=
 Fixpoint cb_reads (s : st) (c : cb) : list N :=
   match c with
   | CRet e => oerr_addrs s e
-  | CPanicErr e => oerr_addrs s (Some e)
+  | CPanicErr e | CPanicInner e => oerr_addrs s (Some e)
   | CPanicVal _ _ | CPanicRt _ _ => []
   | CCall c' => cb_reads s c'
   | CRecover f c' _ => def_addrs s f ++ cb_reads s c'
